@@ -36,17 +36,19 @@ type FaultPlan struct {
 	ByIndex map[int]FaultKind
 	ByNode  map[string]FaultKind // every k8s get/update/delete naming this node
 	ByAPI   map[string]FaultKind // every call of this API
+	Ordinal map[string]map[int]FaultKind // the k-th (1-based) call of an API
 	counter int
+	perAPI  map[string]int
 	Hits    int
 }
 
-func (p *FaultPlan) Reset() { p.counter = 0; p.Hits = 0 }
+func (p *FaultPlan) Reset() { p.counter = 0; p.Hits = 0; p.perAPI = map[string]int{} }
 
 // Calls returns how many faultable calls were seen since Reset.
 func (p *FaultPlan) Calls() int { return p.counter }
 
 func (p *FaultPlan) Empty() bool {
-	return p == nil || (len(p.ByIndex) == 0 && len(p.ByNode) == 0 && len(p.ByAPI) == 0)
+	return p == nil || (len(p.ByIndex) == 0 && len(p.ByNode) == 0 && len(p.ByAPI) == 0 && len(p.Ordinal) == 0)
 }
 
 func (p *FaultPlan) next(api, target string) FaultKind {
@@ -55,8 +57,14 @@ func (p *FaultPlan) next(api, target string) FaultKind {
 	}
 	idx := p.counter
 	p.counter++
+	if p.perAPI == nil {
+		p.perAPI = map[string]int{}
+	}
+	p.perAPI[api]++
 	k := FNone
-	if f, ok := p.ByIndex[idx]; ok {
+	if f, ok := p.Ordinal[api][p.perAPI[api]]; ok {
+		k = f
+	} else if f, ok := p.ByIndex[idx]; ok {
 		k = f
 	} else if f, ok := p.ByAPI[api]; ok {
 		k = f
